@@ -134,20 +134,23 @@ def obs_plus(op, cls, items, ocls, oitems):
             'd_after': enc_items(d), 'o_after': enc_items(other)}
 
 
-def obs_relabel(cls, items, ren, form, arg=None):
+def obs_relabel(cls, items, blanket, indiv, form):
+    """one relabel call: the blanket rule (["none"], ["prefix", s], ["suffix", s], ["map", old -> new] spelled as a dict or as
+    a callable: `form`) together with the individual keyword relabels"""
     d = build_map(cls, items)
-    if form == 'kw':
-        call = lambda: d.relabel(**ren)
-    elif form == 'dict':
-        call = lambda: d.relabel(dict(ren))
-    elif form == 'callable':
-        call = lambda: d.rename(lambda k: ren.get(k, k))
-    elif form in ('prefix', 'suffix'):
-        call = lambda: d.relabel(arg)
+    if blanket[0] == 'none' and form == 'kw':
+        call = lambda: d.relabel(**indiv)
+    elif blanket[0] in ('prefix', 'suffix') and form == blanket[0]:
+        call = lambda: d.relabel(blanket[1], **indiv)
+    elif blanket[0] == 'map' and form == 'dict':
+        call = lambda: d.relabel(dict(blanket[1]), **indiv)
+    elif blanket[0] == 'map' and form == 'callable':
+        call = lambda: d.rename(lambda k: blanket[1].get(k, k), **indiv)
     else:
         raise ValueError(form)
     out = outcome(lambda: enc_map(call(), d))
-    return {'op': 'relabel', 'form': form, 'd': {'cls': cls, 'items': items}, 'ren': ren, 'out': out, 'd_after': enc_items(d)}
+    return {'op': 'relabel', 'form': form + ('+kw' if indiv and form != 'kw' else ''), 'd': {'cls': cls, 'items': items}, 'blanket': blanket, 'indiv': indiv,
+            'out': out, 'd_after': enc_items(d)}
 
 
 def obs_attr(cls, items, k):
@@ -161,29 +164,55 @@ def obs_attr(cls, items, k):
 _FN = {}
 
 
-def make_fn(k, params):
-    """def f(p1, p2): return ('k', p1, p2) - the value identifies the evaluation that produced it"""
-    key = (k, tuple(params))
+def fn_source(k, params, kinds, star, shape='def'):
+    """def k_of(p1, p2=('default', 'k', 'p2'), *rest, q, r=('default', 'k', 'r'), **kw): return ('k', p1, p2, q, r)
+    - the declaration the abstract definition (names, kinds, stars) spells; the value identifies the evaluation that
+    produced it: the key and what arrived through every named parameter.  shape 'obj': the declaration is that of the
+    __call__ method of an object; 'partial': k_of has a first parameter _tag which functools.partial binds to the key"""
+    decl, starred = [], False
+    for name, kind in zip(params, kinds):
+        if kind in ('kwreq', 'kwopt') and not starred:
+            decl.append('*rest' if 'args' in star else '*')
+            starred = True
+        decl.append(name if kind in ('req', 'kwreq') else '%s=(%r, %r, %r)' % (name, 'default', k, name))
+    if 'args' in star and not starred:
+        decl.append('*rest')
+    if 'kw' in star:
+        decl.append('**kw')
+    ret = '(%s,%s)' % ('_tag' if shape == 'partial' else repr(k), ''.join(' %s,' % q for q in params))
+    if shape == 'obj':
+        return 'class %s_cls(object):\n    def __call__(%s):\n        return %s\n%s_of = %s_cls()\n' % (k, ', '.join(['self'] + decl), ret, k, k)
+    if shape == 'partial':
+        return 'import functools\ndef %s_fn(%s):\n    return %s\n%s_of = functools.partial(%s_fn, %r)\n' % (k, ', '.join(['_tag'] + decl), ret, k, k, k)
+    return 'def %s_of(%s):\n    return %s\n' % (k, ', '.join(decl), ret)
+
+
+def make_fn(k, params, kinds=None, star='', shape='def'):
+    kinds = list(kinds) if kinds is not None else ['req'] * len(params)
+    key = (k, tuple(params), tuple(kinds), star, shape)
     if key not in _FN:
         ns = {}
-        exec('def %s_of(%s):\n    return (%r,%s)\n' % (k, ', '.join(params), k, ''.join(' %s,' % p for p in params)), ns)
+        exec(fn_source(k, params, kinds, star, shape), ns)
         _FN[key] = ns['%s_of' % k]
     return _FN[key]
 
 
-def obs_call(cls, base, plain, par, order):
+def obs_call(cls, base, plain, par, order, kin=None, star=None, shape=None):
     A = api()
+    kin = kin if kin is not None else {k: ['req'] * len(ps) for k, ps in par.items()}
+    star = star if star is not None else {k: '' for k in par}
+    shape = shape if shape is not None else {k: 'def' for k in par}
     d = A['classes'][cls](**{k: untag(v) for k, v in base.items()})
     before = enc_items(d)
     kwargs = {}
     for k in order:
-        kwargs[k] = make_fn(k, par[k]) if k in par else untag(plain[k])
+        kwargs[k] = make_fn(k, par[k], kin[k], star[k], shape[k]) if k in par else untag(plain[k])
     out = outcome(lambda: enc_map(d(**kwargs), d))
-    return {'op': 'call', 'cls': cls, 'base': base, 'plain': plain, 'par': par, 'order': list(order), 'out': out,
+    return {'op': 'call', 'cls': cls, 'base': base, 'plain': plain, 'par': par, 'kin': kin, 'star': star, 'shape': shape, 'order': list(order), 'out': out,
             'd_after': enc_items(d), 'd_before': before}
 
 
-CASE_KEYS = ('op', 'fn', 'form', 'raw', 'u', 'x', 'd', 'ks', 'o', 'ren', 'k', 'cls', 'base', 'plain', 'par', 'order')
+CASE_KEYS = ('op', 'fn', 'form', 'raw', 'u', 'x', 'd', 'ks', 'o', 'blanket', 'indiv', 'k', 'cls', 'base', 'plain', 'par', 'kin', 'star', 'shape', 'order')
 
 
 # ---- S2C -----------------------------------------------------------------------------------------
@@ -268,10 +297,19 @@ def s2c_map(ctx, log, cases):
                 continue                                   # outside the property: two keys renamed onto one
             ren = objmap(arg)
             for form in (('kw', 'dict', 'callable')[n % 3], 'kw'):
-                o = obs_relabel(cls, items, ren, form)
+                o = obs_relabel(cls, items, ['none'] if form == 'kw' else ['map', ren], ren if form == 'kw' else {}, form)
                 log.s2c(o, map_ok(o['out'], cls, objmap(want['relabel'])) and o['d_after'] == items)
             if any(k in ren and ren[k] != k for k, _ in items):
                 ctx.note(('ren', json.dumps([items, ren], sort_keys=True)))
+        elif kind == 'ren2':                               # a blanket rule and individual relabels in one call
+            if want['collides']:
+                continue
+            blanket, indiv = [arg[0][0], objmap(arg[0][1]) if arg[0][0] == 'map' else arg[0][1]], objmap(arg[1])
+            form = ('dict', 'callable')[n % 2] if blanket[0] == 'map' else blanket[0]
+            o = obs_relabel(cls, items, blanket, indiv, form)
+            log.s2c(o, map_ok(o['out'], cls, objmap(want['relabel'])) and o['d_after'] == items)
+            if any(k in indiv for k, _ in items):
+                ctx.note(('ren2', json.dumps([items, blanket, indiv], sort_keys=True)))
         ctx.traces += 1
         if n % 3999 == 123:
             ctx.sample({'s2c_map': c})
@@ -279,13 +317,13 @@ def s2c_map(ctx, log, cases):
 
 def s2c_call(ctx, log, cases):
     for n, c in enumerate(cases):
-        par, base, want = objmap(c['par']), c['base'], c['out']
+        par, kin, star, shape, base, want = objmap(c['par']), objmap(c['kin']), objmap(c['star']), objmap(c['shape']), c['base'], c['out']
         cls = ('Dict', 'SubD')[n % 2]
         orders = list(itertools.permutations(sorted(par)))          # EVERY keyword order ...
         if ctx.quick and len(par) == 4 and want[0] == 'exc':         # ... (quick tier: 6 of the 24 for the cyclic graphs on 4 keys)
             orders = [orders[0], orders[-1]] + ctx.rng.sample(orders[1:-1], 4)
         for order in orders:
-            o = obs_call(cls, base, {}, par, order)
+            o = obs_call(cls, base, {}, par, order, kin, star, shape)
             if want[0] == 'exc':
                 ok = o['out'] == {'kind': 'exc', 'cls': want[1]}
             else:
@@ -293,7 +331,7 @@ def s2c_call(ctx, log, cases):
             log.s2c(o, ok and as_dict(o['d_after']) == base)
             ctx.traces += 1
         if len(par) >= 2 and want[0] != 'exc' and any(set(ps) & set(par) for ps in par.values()):
-            ctx.note(('call', json.dumps(par, sort_keys=True)))
+            ctx.note(('call', json.dumps([par, kin], sort_keys=True)))
         if n % 997 == 500:
             ctx.sample({'s2c_call': c})
 
@@ -359,13 +397,24 @@ def c2s_map(ctx, log, n):
             ren[p], ren[q] = q, p
         if rng.random() < 0.3:
             ren['absent_key'] = 'whatever'
+        # the blanket rule: none / a prefix / a suffix / the renaming as a dict or a callable; beside it individual relabels
+        # (none, or the renaming of some keys to other fresh names, or of a key d does not have)
+        indiv = {}
+        if rng.random() < 0.5:
+            for j, k in enumerate(have):
+                if rng.random() < 0.4:
+                    indiv[k] = 'i%d' % j
+            if rng.random() < 0.2:
+                indiv['absent_too'] = 'i_whatever'
         r = rng.random()
-        if r < 0.2 and all(('x_' + k) not in have for k in have):
-            log.c2s(obs_relabel(cls, items, {k: 'x_' + k for k in have}, 'prefix', 'x_'))
-        elif r < 0.4 and all((k + '_x') not in have for k in have):
-            log.c2s(obs_relabel(cls, items, {k: k + '_x' for k in have}, 'suffix', '_x'))
+        if r < 0.2:
+            log.c2s(obs_relabel(cls, items, ['prefix', 'x_'], indiv, 'prefix'))
+        elif r < 0.4:
+            log.c2s(obs_relabel(cls, items, ['suffix', '_x'], indiv, 'suffix'))
+        elif r < 0.6:
+            log.c2s(obs_relabel(cls, items, ['none'], ren, 'kw'))
         else:
-            log.c2s(obs_relabel(cls, items, ren, rng.choice(['kw', 'dict', 'callable'])))
+            log.c2s(obs_relabel(cls, items, ['map', ren], indiv, rng.choice(['dict', 'callable'])))
 
 
 def rand_graph(rng, nd):
@@ -394,28 +443,41 @@ def rand_graph(rng, nd):
     if rng.random() < 0.3 and 'p' not in names:
         plain['p'] = rng.choice(MVALS)                     # a plain keyword that overwrites a base key first
     readable = [k for k in base_keys + [x for x in plain if x not in base_keys] if k not in names]
-    par = {}
+    # kinds of parameters: all required (the plain definitions), or a mix of required / defaulted / keyword-only ones;
+    # defaulted parameters may also name something nobody provides (then the default is what the definition receives)
+    mix = rng.choice([None, ['req', 'opt'], ['req', 'opt', 'kwreq', 'kwopt'], ['opt', 'kwopt']])
+    rank = {'req': 1, 'opt': 2, 'kwreq': 3, 'kwopt': 3}
+    par, kin, star, shape = {}, {}, {}, {}
     for k in names:
         ps = sorted(deps[k]) + [b for b in readable if rng.random() < 0.3]
         rng.shuffle(ps)
-        par[k] = ps
-    return base, plain, par
+        ks = ['req' if mix is None else rng.choice(mix) for _ in ps]
+        if mix is not None:
+            for nobody in ('n1', 'n2'):
+                if rng.random() < 0.25:
+                    ps.append(nobody)
+                    ks.append(rng.choice(['opt', 'kwopt']))
+        decl = sorted(zip(ps, ks), key=lambda e: rank[e[1]])          # a legal declaration order (stable: random within a rank)
+        par[k], kin[k] = [e[0] for e in decl], [e[1] for e in decl]
+        star[k] = '' if mix is None else rng.choice(['', '', 'args', 'kw', 'args_kw'])
+        shape[k] = rng.choice(['def', 'def', 'obj', 'partial'])
+    return base, plain, par, kin, star, shape
 
 
 def c2s_call(ctx, log, ngraphs, norders):
     rng = ctx.rng
     for i in range(ngraphs):
         nd = rng.choice([5, 6])
-        base, plain, par = rand_graph(rng, nd)
+        base, plain, par, kin, star, shape = rand_graph(rng, nd)
         keys = sorted(par) + sorted(plain)
         cls = rng.choice(['Dict', 'SubD'])
         for _ in range(norders):
             order = keys[:]
             rng.shuffle(order)
-            o = obs_call(cls, base, plain, par, order)
+            o = obs_call(cls, base, plain, par, order, kin, star, shape)
             log.c2s(o)
         if o['out'].get('kind') == 'map':
-            ctx.note(('c2s-call', json.dumps(par, sort_keys=True)))
+            ctx.note(('c2s-call', json.dumps([par, kin], sort_keys=True)))
         if i % 17 == 3:
             ctx.sample({'c2s_call': o})
 
@@ -428,15 +490,22 @@ def gen(ctx, module, cfg):
 
 def run(ctx):
     ctx.rule = ('S2C: every (raw list, operand) of the TLC universe through ulist(), +, |, -, & (ulist and a subclass); every '
-                '(mapping, argument) through -, &, [list], [k1, k2], +, |, relabel (3 spellings), attribute access on dictattr, Dict and a '
-                'subclass of each; every dependency graph without self-loops on <= 4 derived keys (incl. redefinition of a base key) '
+                '(mapping, argument) through -, &, [list], [k1, k2], +, |, relabel (individual keywords, dict, callable; prefix / suffix / dict / callable rule combined with individual keywords), attribute access on dictattr, Dict and a '
+                'subclass of each; every dependency graph without self-loops on <= 4 derived keys whose edges are required parameters (incl. redefinition of a base key), '
+                'and every graph on <= 3 keys whose edges carry a kind - required / defaulted / keyword-only / keyword-only defaulted parameter (quick: all four kinds on <= 2 keys, '
+                'required / defaulted on 3; thorough: all four on 3 and required / defaulted on 4 keys with <= 4 edges) - where the definitions also read the mapping through parameters '
+                'of every kind, name keys that nobody provides through defaulted ones, three of them declare *args / **kwargs, two are objects with __call__ and one a functools.partial, '
                 'through Dict(**base)(**definitions) in EVERY keyword order (quick tier: 6 of the 24 orders for cyclic graphs on 4 keys), definitions synthesised with exec so that each value '
-                'is the tuple (key, arguments...).  Operands are encoded before and after every call.  C2S: random lists over 16 '
-                'elements (1 == True == 1.0, tuples), random mappings over 10 keys, 5-6 derived keys with random (a)cyclic graphs, '
-                'shadowing and plain keywords in seeded random orders, judged by Trace_Algebra.  Non-trivial = intersection neither '
+                'is the tuple (key, what arrived through each named parameter; a default is the marker ("default", key, parameter)).  Operands are encoded before and after every call.  C2S: random lists over 16 '
+                'elements (1 == True == 1.0, tuples), random mappings over 10 keys, 5-6 derived keys with random (a)cyclic graphs whose parameters are all required or a mix of the four kinds '
+                '(defaulted ones also naming nothing), *args / **kwargs, functions / callable objects / partials, shadowing and plain keywords in seeded random orders, judged by Trace_Algebra.  Non-trivial = intersection neither '
                 'empty nor everything / selection that removes some but not all keys / overlapping update / renaming that renames / '
                 'acyclic graph with >= 1 dependency among definitions; distinct by abstract input.')
     ctx.mc('MC_Algebra', 'MC_Algebra_quick.cfg' if ctx.quick else 'MC_Algebra_thorough.cfg')
+    if not ctx.quick:
+        # mechanisms that order the evaluation by the required / by the positional parameters only do not implement the law
+        ctx.mc('MC_Algebra', 'MC_Algebra_reqonly.cfg', must_fail='ReqOnlyIsLaw', coverage=False)
+        ctx.mc('MC_Algebra', 'MC_Algebra_posonly.cfg', must_fail='PositionalIsLaw', coverage=False)
     log = Log(ctx, 1500 if ctx.quick else 20000)
     cases = gen(ctx, 'MC_Algebra', 'MC_Algebra_gen.cfg' if ctx.quick else 'MC_Algebra_gent.cfg')   # all three families in one TLC run
     s2c_ulist(ctx, log, [c for c in cases if c['op'] == 'ulist'])
@@ -450,8 +519,9 @@ def run(ctx):
     ctx.assumptions += [
         'elements are hashable values without NaN; "duplicate" and "equal" are Python ==, so 1, True and 1.0 are one element',
         'mapping keys are identifier-like strings without ".", without a leading "_" and not names of dict/dictattr attributes; values are flat (None, numbers, strings, lists, tuples): Dict + other with nested dicts is the deep merge of C15',
-        'relabel is exercised with collision-free renamings (kw, dict, callable, prefix, suffix spellings); the positional-list spelling is not',
-        'definitions handed to Dict.__call__ never take their own key as a parameter (that means "previous value" in the code) and only take parameters that the mapping or another definition provides',
+        'relabel is exercised with collision-free renamings: individual keyword relabels alone, and a blanket rule (prefix "x_", suffix "_x", dict, callable) alone or TOGETHER WITH individual keyword relabels, which then win for the keys they name; the positional-list spelling is not',
+        'definitions handed to Dict.__call__ never take their own key as a parameter (that means "previous value" in the code); parameters WITHOUT a default only name what the mapping or another definition provides; a parameter called "key" is only used when the mapping has an entry "key" (the code passes a hidden key=<name> otherwise)',
+        'every NAMED parameter of a definition - with or without a default, positional or keyword-only - is an argument taken by name from the mapping and an edge of the dependency graph; the default is what arrives only when nobody provides the name.  What arrives in *args / **kwargs is not judged',
         'dictable (a dictattr subclass with row semantics for + - & []) is covered by C01, not here',
         'small scope: MC/S2C lists <= 3 (thorough 4) over 5 elements, mappings over 3 keys, <= 4 derived keys; C2S lists <= 13, mappings <= 6 keys, 5-6 derived keys x 60 orders',
     ]
@@ -473,11 +543,11 @@ def replay(ctx, body):
     elif op in ('plus', 'or'):
         o = obs_plus(op, c['d']['cls'], c['d']['items'], c['o']['cls'], c['o']['items'])
     elif op == 'relabel':
-        o = obs_relabel(c['d']['cls'], c['d']['items'], c['ren'], c['form'] if c['form'] in ('kw', 'dict', 'callable') else 'kw')
+        o = obs_relabel(c['d']['cls'], c['d']['items'], c['blanket'], c['indiv'], c['form'].split('+')[0])
     elif op == 'attr':
         o = obs_attr(c['d']['cls'], c['d']['items'], c['k'])
     else:
-        o = obs_call(c['cls'], c['base'], c['plain'], c['par'], c['order'])
+        o = obs_call(c['cls'], c['base'], c['plain'], c['par'], c['order'], c.get('kin'), c.get('star'), c.get('shape'))
     bad = ctx.validate('Trace_Algebra', [o])
     print(json.dumps(o, indent=1))
     print('verdict:', bad[0][1] if bad else 'accepted')
